@@ -437,6 +437,44 @@ func ruleC08Miss(p *Prog, a *Anchors, r *Report, res *ssa.Function) {
 	if n < 2 {
 		r.Bad("resolve:invalid→empty:sites", p.Pos(res.Pos()), "expected validity tests with empty-value returns after each resolution step, found %d", n)
 	}
+	// the kind dispatch of a step is not bypassed: inside the handling of a step form (an edge `part.typ == <form>`) the
+	// empty value is returned only from within an arm of the switch over current.Kind() — a return in front of that
+	// switch answers "empty" also for a scalar, for which the switch's default arm has the execution error
+	nDisp := 0
+	for _, ret := range returnsOf(res) {
+		if len(ret.Results) != 2 || !isNilConst(res0(ret, 1)) {
+			continue
+		}
+		call, ok := res0(ret, 0).(*ssa.Call)
+		if !ok || call.Common().StaticCallee() != asValue || !isNilConst(stripConv(call.Common().Args[0])) {
+			continue
+		}
+		inStep := Guarded(ret, func(c ssa.Value, pol bool) bool {
+			bo, ok := c.(*ssa.BinOp)
+			return ok && bo.Op == token.EQL && pol && loadsField(bo.X, "variablePart", "typ")
+		})
+		if !inStep {
+			continue
+		}
+		nDisp++
+		inArm := Guarded(ret, func(c ssa.Value, pol bool) bool {
+			bo, ok := c.(*ssa.BinOp)
+			if !ok || bo.Op != token.EQL || !pol {
+				return false
+			}
+			kc, isCall := bo.X.(*ssa.Call)
+			return isCall && kc.Common().StaticCallee() != nil && p.extName(kc.Common().StaticCallee()) == "(reflect.Value).Kind"
+		})
+		key := "resolve:empty-inside-kind-arm"
+		if inArm {
+			r.OK(key, p.InstrPos(ret), "the empty value is returned from within an arm of the kind switch")
+		} else {
+			r.Bad(key, p.InstrPos(ret), "inside the handling of a step the empty value is returned before the kind of the value was looked at: for a scalar (a number, a bool) this answers \"empty\" where the kind switch's default arm has the execution error, e.g. {{ count[missing] }}")
+		}
+	}
+	if nDisp == 0 {
+		r.Unk("resolve:empty-inside-kind-arm", p.Pos(res.Pos()), "no empty-value return inside a step branch found (the step dispatch on variablePart.typ is not recognised)")
+	}
 	// default arms of the kind switches return errors
 	nErr := 0
 	for _, b := range res.Blocks {
